@@ -1,0 +1,182 @@
+//! Verification hooks (family `gs_unit`), compiled only with `--cfg libp2p_verif`.
+//!
+//! Thin `pub` wrappers around crate-private items so that an external harness can drive the
+//! production code: the RPC codec, `BackoffStorage`, `DuplicateCache`, `MessageCache`, handler
+//! events and the default subscription-filter entry point. Nothing here contains logic of its
+//! own.
+
+use std::{
+    collections::{BTreeSet, HashSet},
+    time::Duration,
+};
+
+use asynchronous_codec::Encoder;
+use bytes::BytesMut;
+use futures_timer::Delay;
+use libp2p_identity::PeerId;
+use web_time::Instant;
+
+pub use crate::{
+    handler::{Handler, HandlerEvent, HandlerIn},
+    protocol::GossipsubCodec,
+    types::{
+        ControlAction, Graft, IDontWant, IHave, IWant, PeerKind, Prune, RpcIn, RpcOut,
+        Subscription, SubscriptionAction, SubscriptionOpts,
+    },
+};
+use crate::{
+    backoff::BackoffStorage,
+    mcache::MessageCache,
+    subscription_filter::TopicSubscriptionFilter,
+    time_cache::DuplicateCache,
+    topic::TopicHash,
+    types::{MessageId, RawMessage},
+};
+
+// ---------------------------------------------------------------------------------------------
+// codec
+
+/// `RpcOut::Publish` (the `timeout` field has a crate-private dependency type).
+pub fn rpc_out_publish(message_id: MessageId, message: RawMessage) -> RpcOut {
+    RpcOut::Publish {
+        message_id,
+        message,
+        timeout: Delay::new(Duration::from_secs(3600 * 24 * 365)),
+    }
+}
+
+pub fn rpc_out_graft(topic: TopicHash) -> RpcOut {
+    RpcOut::Graft(Graft { topic_hash: topic })
+}
+
+pub fn rpc_out_ihave(topic: TopicHash, ids: Vec<MessageId>) -> RpcOut {
+    RpcOut::IHave(IHave {
+        topic_hash: topic,
+        message_ids: ids,
+    })
+}
+
+pub fn rpc_out_iwant(ids: Vec<MessageId>) -> RpcOut {
+    RpcOut::IWant(IWant { message_ids: ids })
+}
+
+/// Encode an `RpcOut` exactly as the handler does (`into_protobuf` + the codec's `Encoder`).
+pub fn encode_rpc_out(
+    codec: &mut GossipsubCodec,
+    rpc: RpcOut,
+    dst: &mut BytesMut,
+) -> Result<(), String> {
+    codec
+        .encode(rpc.into_protobuf(), dst)
+        .map_err(|e| e.to_string())
+}
+
+pub fn handler_event_peer_kind(kind: PeerKind) -> HandlerEvent {
+    HandlerEvent::PeerKind(kind)
+}
+
+pub fn subscription(subscribe: bool, topic: TopicHash) -> Subscription {
+    Subscription {
+        action: if subscribe {
+            SubscriptionAction::Subscribe
+        } else {
+            SubscriptionAction::Unsubscribe
+        },
+        topic_hash: topic,
+        options: SubscriptionOpts::default(),
+    }
+}
+
+/// `TopicSubscriptionFilter::filter_incoming_subscriptions` with an owned result.
+pub fn filter_incoming<F: TopicSubscriptionFilter>(
+    filter: &mut F,
+    subscriptions: &[Subscription],
+    currently_subscribed_topics: &BTreeSet<TopicHash>,
+) -> Result<Vec<Subscription>, String> {
+    filter
+        .filter_incoming_subscriptions(subscriptions, currently_subscribed_topics)
+        .map(|s| s.into_iter().cloned().collect())
+}
+
+// ---------------------------------------------------------------------------------------------
+// backoff storage
+
+pub struct Backoff(BackoffStorage);
+
+impl Backoff {
+    pub fn new(prune_backoff: Duration, heartbeat_interval: Duration, backoff_slack: u32) -> Self {
+        Backoff(BackoffStorage::new(
+            &prune_backoff,
+            heartbeat_interval,
+            backoff_slack,
+        ))
+    }
+    pub fn update_backoff(&mut self, topic: &TopicHash, peer: &PeerId, time: Duration) {
+        self.0.update_backoff(topic, peer, time)
+    }
+    pub fn is_backoff_with_slack(&self, topic: &TopicHash, peer: &PeerId) -> bool {
+        self.0.is_backoff_with_slack(topic, peer)
+    }
+    pub fn get_backoff_time(&self, topic: &TopicHash, peer: &PeerId) -> Option<Instant> {
+        self.0.get_backoff_time(topic, peer)
+    }
+    pub fn heartbeat(&mut self) {
+        self.0.heartbeat()
+    }
+}
+
+// ---------------------------------------------------------------------------------------------
+// caches
+
+pub struct DupCache(DuplicateCache<MessageId>);
+
+impl DupCache {
+    pub fn new(ttl: Duration) -> Self {
+        DupCache(DuplicateCache::new(ttl))
+    }
+    pub fn insert(&mut self, id: MessageId) -> bool {
+        self.0.insert(id)
+    }
+    pub fn contains(&self, id: &MessageId) -> bool {
+        self.0.contains(id)
+    }
+}
+
+#[derive(Clone)]
+pub struct MCache(MessageCache);
+
+impl MCache {
+    pub fn new(gossip: usize, history_capacity: usize) -> Self {
+        MCache(MessageCache::new(gossip, history_capacity))
+    }
+    pub fn put(&mut self, id: &MessageId, msg: RawMessage) -> bool {
+        self.0.put(id, msg)
+    }
+    pub fn observe_duplicate(&mut self, id: &MessageId, source: &PeerId) {
+        self.0.observe_duplicate(id, source)
+    }
+    pub fn get_with_iwant_counts(
+        &mut self,
+        id: &MessageId,
+        peer: &PeerId,
+    ) -> Option<(RawMessage, u32)> {
+        self.0
+            .get_with_iwant_counts(id, peer)
+            .map(|(m, c)| (m.clone(), c))
+    }
+    pub fn validate(&mut self, id: &MessageId) -> Option<(RawMessage, HashSet<PeerId>)> {
+        self.0.validate(id).map(|(m, p)| (m.clone(), p))
+    }
+    pub fn get_gossip_message_ids(&self, topic: &TopicHash) -> Vec<MessageId> {
+        self.0.get_gossip_message_ids(topic)
+    }
+    pub fn shift(&mut self) {
+        self.0.shift()
+    }
+    pub fn remove(&mut self, id: &MessageId) -> Option<(RawMessage, HashSet<PeerId>)> {
+        self.0.remove(id)
+    }
+    pub fn debug(&self) -> String {
+        format!("{:?}", self.0)
+    }
+}
